@@ -200,18 +200,25 @@ def _sig(base, kind, fail=None, short=None):
   return s
 
 
+def _lab(what):
+  """Labels are built lazily: (format, values...) -> text."""
+  if isinstance(what, tuple):
+    return what[0] % tuple(ty.fmt(v) if not isinstance(v, str) else v for v in what[1:])
+  return what
+
+
 def _member(ctx, base, kind, O, values, lit, failed, label):
   """Every value must be in lattice(O); one violation per distinct (fail, shortfall)."""
   good = True
   n = 0
   tight = False
+  half = ty.max_abs(O) / 2 if O.kind == "fixed" else None
   for (what, v) in values:
     n += 1
     why = ty.why_not(O, v)
     if why is None:
-      if not tight and O.kind == "fixed":
-        m = ty.max_abs(O)
-        tight = 2 * abs(v) > m
+      if half is not None and not tight and abs(v) > half:
+        tight = True
       continue
     short = ty.shortfall_bits(O, v) if why in ("above_max", "below_min") else None
     tag = (kind, why, short)
@@ -219,6 +226,7 @@ def _member(ctx, base, kind, O, values, lit, failed, label):
     if tag in failed:
       continue
     failed.add(tag)
+    what = _lab(what)
     ctx.violation(_sig(base, kind, why, short),
                   "%s: %s = %s is not a value of the reported %s type %s (%s)" % (
                       label, what, ty.fmt(v), base["op"], ty.describe(O), why),
@@ -299,11 +307,11 @@ def check_accumulator(kernel_shape, multiplier, use_bias, result):
   vals = [("N*max", N * mx), ("N*min", N * mn)]
   if N >= 2:
     for v in ex:
-      vals.append(("(N-1)*max + %s" % ty.fmt(v), (N - 1) * mx + v))
-      vals.append(("(N-1)*min + %s" % ty.fmt(v), (N - 1) * mn + v))
+      vals.append((("(N-1)*max + %s", v), (N - 1) * mx + v))
+      vals.append((("(N-1)*min + %s", v), (N - 1) * mn + v))
   if ty.has_zero(M):
     for v in ex:
-      vals.append(("%s + (N-1)*0" % ty.fmt(v), v))
+      vals.append((("%s + (N-1)*0", v), v))
     sp = ty.smallest_positive(M)
     if sp is not None and N * mx - sp >= 0:
       vals.append(("N*max - LSB", N * mx - sp))
@@ -338,7 +346,7 @@ def _check_sum2(ctx, base, A, B, O, lit, prefix):
     ctx.count(prefix + ".brute_force_sums", len(va) * len(vb))
   else:
     va, vb = ty.extremes(A), ty.extremes(B)
-  vals = [("%s + %s" % (ty.fmt(a), ty.fmt(b)), a + b) for a in va for b in vb]
+  vals = [(("%s + %s", a, b), a + b) for a in va for b in vb]
   failed = set()
   good, n, tight = _member(ctx, base, "sum_not_representable", O, vals, lit, failed, label)
   ctx.count(prefix + ".sums_checked", n)
@@ -417,7 +425,7 @@ def check_merge(input_qe_list, layer_type, result):
   for t in ts:
     vs = ty.enumerate_values(t) if brute else ty.extremes(t)
     g2, n2, t2 = _member(ctx, base, "operand_value_not_representable", O,
-                         [("value %s of %s" % (ty.fmt(v), ty.describe(t)), v) for v in vs], lit, failed, label)
+                         [(("value %s of %s", v, ty.describe(t)), v) for v in vs], lit, failed, label)
     good, n, tight = good and g2, n + n2, tight or t2
   ctx.count("merge.values_checked", n)
   ctx.evals(n)
